@@ -52,6 +52,9 @@ CHECKS = {
  "C13": dict(cat="exploration", tech="finite product of payload alphabet x role x outside action, the action placed at every choice point by deviation-bounded exploration on the real code; crash/spin/stuck/goroutine guards plus store-log oracle", ref="DESIGN §5 C13",
    note="50 record shapes; roles: plain follower+leader, takeover candidate with equal / higher priority; actions put, delete, put-then-delete; d<=1; 1 MiB values only on the default schedule in the quick tier. Unbounded recursion is observed through its zero-time operation storm (spin guard: >64 store ops of one instance at one virtual instant).",
    text="No explored execution kills the worker, storms the store without virtual time advancing, leaves a stuck goroutine, blocks Status() or grows goroutines without bound; every replacement of a live foreign record is a legitimate preemption of a parseable record; every promotion follows an acquisition write of the claimer; a leader whose record was rewritten or deleted is demoted within H+2T."),
+ "C14": dict(cat="model_checking", tech="exhaustive enumeration of operation sequences up to a depth, each replayed through the real adapter on an embedded nats-server in lock-step with the reference store (model conformance)", ref="DESIGN §5 C14",
+   note="Alphabet of 11 operations (three value shapes, four revision choices) up to depth 4 (quick) / 5 (thorough); expiry sequences with one WaitExpiry up to depth 3/4 (real time, MaxAge 150ms; an expiry the server has not performed in time makes the sequence inconclusive, never an alarm); watchers at every prefix position of all sequences up to depth 3/4, two consumer styles; buckets with History 64 so that the server never drops a superseded revision before delivering it; one writer per bucket.",
+   text="Adapter and reference model agree on outcome, revision, value and error text at every step of every sequence; Create succeeds exactly without a live value (also after delete/expiry), Update exactly on the latest revision, revisions strictly increase; every watcher receives exactly the model's event list (initial value, nil marker, each later change once, in order, deletions empty) through one stable channel also when Updates() is called before every receive, and no adapter goroutine survives Stop. This is what binds the store used by all other checks to the real server."),
 }
 NA_DEFAULT = "check not built yet in this round (planned in DESIGN.md §9a); not claimed until it runs alarm-free"
 
